@@ -151,6 +151,9 @@ pub fn matrix(seed: u64, thorough: bool) -> Vec<Cfg> {
     // values that do not fit 16 / 32 bits: a connection limit above 65535, memory limits of 4 GiB and more (not reached)
     let rt = *rng.pick(&["current-thread", "multi-thread"]);
     v.push(Cfg { runtime: rt, threads: 2, eviction: "random", item_limit: 65536, conn_limit: *rng.pick(&[65536u32, 65537, 65539, 131072]), port, memory: *rng.pick(&["4GiB", "8GiB", "4294968296", "16GiB"]) });
+    // an item size limit above the default of 1 MiB (the documented range is 1k..1024m), not always a power of two
+    let rt = *rng.pick(&["current-thread", "multi-thread"]);
+    v.push(Cfg { runtime: rt, threads: 2, eviction: *rng.pick(&["none", "random"]), item_limit: *rng.pick(&[2097152u32, 3145728, 5000000, 1048577]), conn_limit: 1024, port: crate::net::free_port(), memory: "64MiB" });
     v
 }
 
